@@ -92,6 +92,12 @@ def run(prop, tier, seed, replay=None):
     for i, c_ in enumerate([dict(V=3, EMIN=3, EMAX=3, WSET={4, 6, 8}, WD=4, DSET={1, 2, 3}, EXTV=3, STRIDE=101, OFFSET=rnd.randrange(101)),
                             dict(V=4, EMIN=3, EMAX=3, WSET={4, 6}, WD=4, DSET={1, 3}, EXTV=3, STRIDE=61, OFFSET=rnd.randrange(61))]):
         core.tlc("Gen_Table", core.cfg_text(constants=c_, invariants=["Emit"]), "gen_t_%d" % i, wd, workers=12, timeout=3600, coverage=False, replay_to=tpath)
+    # weights down to 2^-28: table entries (J) of order 1e17 and beyond
+    tiny = os.path.join(wd, "tiny.ndjson")
+    open(tiny, "w").close()
+    core.tlc("Gen_TableRand", core.cfg_text(constants=dict(V=3, EMIN=3, EMAX=4, WSET={1, 1, 268435456, 402653184}, WD=268435456, DSET={1, 2}, EXTV=3, NSAMP=300),
+                                            invariants=["Emit"]), "gen_tiny", wd, workers=12, timeout=1800, coverage=False, replay_to=tiny, seed=seed)
+    tinyl = [l for l in open(tiny) if '"div":false' in l and '"L":0' not in l and json.loads(l)["dod"] > 0][:3]
     tl = [l for l in open(tpath) if '"div":false' in l and '"L":0' not in l]
     disc = [l for l in tl if json.loads(l)["l"][-1] > 0 and _disconnected(json.loads(l))]
     rl = [l for l in open(path)]
@@ -99,14 +105,14 @@ def run(prop, tier, seed, replay=None):
     with open(mixed, "w") as f:
         # head of the file (always used): disconnected accepted graphs first, then other table graphs, then routing lines
         nhead = 3 if tier == "quick" else 12
-        for l in disc[:nhead] + tl[:max(1, nhead // 3)]:
+        for l in disc[:nhead] + tinyl + tl[:max(1, nhead // 3)]:
             f.write(l)
         for l in rl:
             f.write(l)
     path = mixed
     trace = os.path.join(wd, "api.ndjson")
     s = core.mt("record-api", path, os.path.join(wd, "sum.json"), seed,
-                {"trace": trace, "nolog": nolog, "origins": 12 if tier == "quick" else 60, "args": 4 if tier == "quick" else 8,
+                {"trace": trace, "nolog": nolog, "origins": 16 if tier == "quick" else 60, "args": 4 if tier == "quick" else 8,
                  "threads": 8 if tier == "quick" else 16, "calls": 1500 if tier == "quick" else 10000})
     if s["counters"].get("process_nolog", 0) != 1 or s["counters"].get("process_second-process", 0) != 1:
         raise core.ToolError("the second process / the nolog binary did not run: %s" % s["notes"])
